@@ -111,6 +111,12 @@ func runCheck(id, tier string) int {
 		return checkC18(tier)
 	case "C10":
 		return checkC10(tier)
+	case "C11":
+		return checkC11(tier)
+	case "C12":
+		return checkC12(tier)
+	case "C13":
+		return checkC13(tier)
 	case "C06":
 		return checkC06(tier)
 	case "C07":
